@@ -137,3 +137,16 @@ M2[:] = [
   '', 'package dilithium\n', 'package dilithium\n\nimport "sync"\n'),
 ]
 main2()
+
+# ---- channels
+M2[:] = [
+ ('ok-parallel-matrix-expand-chan', '', 'dilithium/polyvec.go',
+  '\tfor i := 0; i < K; i++ {\n\t\tfor j := 0; j < L; j++ {\n\t\t\tif err := polyUniform(&mat[i].vec[j], rho, (uint16(i)<<8)+uint16(j)); err != nil {\n\t\t\t\treturn err\n\t\t\t}\n\t\t}\n\t}\n\treturn nil\n}\n\nfunc polyVecLChkNorm',
+  '\trows := make(chan int, K)\n\terrs := make(chan error)\n\tfor w := 0; w < 3; w++ {\n\t\tgo func() {\n\t\t\tvar first error\n\t\t\tfor i := range rows {\n\t\t\t\tfor j := 0; j < L; j++ {\n\t\t\t\t\tif err := polyUniform(&mat[i].vec[j], rho, (uint16(i)<<8)+uint16(j)); err != nil && first == nil {\n\t\t\t\t\t\tfirst = err\n\t\t\t\t\t}\n\t\t\t\t}\n\t\t\t}\n\t\t\terrs <- first\n\t\t}()\n\t}\n\tfor i := 0; i < K; i++ {\n\t\trows <- i\n\t}\n\tclose(rows)\n\tvar first error\n\tfor w := 0; w < 3; w++ {\n\t\tif err, ok := <-errs; ok && err != nil && first == nil {\n\t\t\tfirst = err\n\t\t}\n\t}\n\treturn first\n}\n\nfunc polyVecLChkNorm',
+  ''),
+ ('c15-parallel-matrix-expand-chan-early', 'C15', 'dilithium/polyvec.go',
+  '\tfor i := 0; i < K; i++ {\n\t\tfor j := 0; j < L; j++ {\n\t\t\tif err := polyUniform(&mat[i].vec[j], rho, (uint16(i)<<8)+uint16(j)); err != nil {\n\t\t\t\treturn err\n\t\t\t}\n\t\t}\n\t}\n\treturn nil\n}\n\nfunc polyVecLChkNorm',
+  '\trows := make(chan int, K)\n\terrs := make(chan error, 3)\n\tfor w := 0; w < 3; w++ {\n\t\tgo func() {\n\t\t\tvar first error\n\t\t\tfor i := range rows {\n\t\t\t\tfor j := 0; j < L; j++ {\n\t\t\t\t\tif err := polyUniform(&mat[i].vec[j], rho, (uint16(i)<<8)+uint16(j)); err != nil && first == nil {\n\t\t\t\t\t\tfirst = err\n\t\t\t\t\t}\n\t\t\t\t}\n\t\t\t}\n\t\t\terrs <- first\n\t\t}()\n\t}\n\tfor i := 0; i < K; i++ {\n\t\trows <- i\n\t}\n\tclose(rows)\n\t// two of the three workers reporting back is enough to know about errors\n\tfor w := 0; w < 2; w++ {\n\t\tif err := <-errs; err != nil {\n\t\t\treturn err\n\t\t}\n\t}\n\treturn nil\n}\n\nfunc polyVecLChkNorm',
+  ''),
+]
+main2()
